@@ -122,7 +122,11 @@ def _apply(head, form, op, versioning, markings):
         elif kind == "set_modified":
             kw["modified"] = op["_modified_text"]
         elif kind == "unmodifiable":
-            kw[op["prop"]] = op["value"]
+            if op.get("via") == "custom_properties" and form != "dict":
+                # the same attempt smuggled through the custom_properties= keyword: it must not win over the copied original
+                kw["custom_properties"] = {op["prop"]: op["value"]}
+            else:
+                kw[op["prop"]] = op["value"]
         if form == "dict" or op.get("api") == "function":
             return core.guarded(versioning.new_version, head, **kw)
         return core.guarded(head.new_version, **kw)
@@ -284,6 +288,8 @@ def _run(case, clock, versioning):
                 may_refuse = True           # later, but not after serialization: refuse, or make it strictly later
         elif kind == "unmodifiable":
             classes.append("unmodifiable:" + op["prop"])
+            if op.get("via"):
+                classes.append("unmodifiable-via:" + op["via"])
             if exc is None:
                 d = ser(new)
                 if d.get(op["prop"]) != prev_doc.get(op["prop"]):
@@ -454,6 +460,8 @@ def an_op(draw, typ, version, form, subject):
         op["delta"] = draw(clock_delta)
         op["changes"] = changes(0)
     elif kind == "unmodifiable":
+        if draw(st.integers(0, 3)) == 0:
+            op["via"] = "custom_properties"
         if sco and subject["id"] != "file--" + S.uid(0x71) and draw(st.booleans()):
             p = pick(draw, sorted(S.FILE_LOCKED))
             op["prop"], op["value"] = p, pick(draw, S.FILE_LOCKED[p])
